@@ -232,13 +232,54 @@ def jobs_for(check, mirror, rb, crate, U, jobs, tier, KNOWN_PRED):
             conj.append(z3.Or([z3.And(src.len > p, s.fields[0].e == COMP[k], z3.BoolVal(arg is s.fields[1])) for p, s in enumerate(src.items)]))
         return z3.And(conj)
 
+    def via_builder(ex, st, builder, ncomp, av, x):
+        """the builder itself is executed on an item definition with `ncomp` components (the accessors of ItemDefinition, the component
+        evaluator factory and the allowed-values factory are oracles), then the closure it returns: whatever the closure captures"""
+        comp_defs = [Opaque("ItemDefinition", ("component", k)) for k in range(len(COMP))]
+        comp_evs = [Ref(ex.new_cell(st, oracle_item_evaluator("c%d" % k), "cbox")) for k in range(len(COMP))]
+        idef = Ref(ex.new_cell(st, Opaque("ItemDefinition", ("self", 0)), "idef"))
+
+        def m_components(ex, st, callee, args, dest_ty):
+            yield st, Ref(ex.new_cell(st, VecV(ncomp, comp_defs, "ItemDefinition"), "components"))
+
+        def m_feel_name(ex, st, callee, args, dest_ty):
+            d = deref(ex, st, args[0])
+            k = d.e[1] if isinstance(d, Opaque) and d.sort == "ItemDefinition" and d.e[0] == "component" else None
+            if k is None:
+                raise MirUnsupported("feel_name of %r" % (d,))
+            yield st, Ref(ex.new_cell(st, En("Option", z3.IntVal(1), {"Some": (Opaque("Name", z3.IntVal(COMP[k])),)}), "feel_name"))
+
+        def m_build_item(ex, st, callee, args, dest_ty):
+            d = deref(ex, st, args[0])
+            if not (isinstance(d, Opaque) and d.sort == "ItemDefinition" and d.e[0] == "component"):
+                raise MirUnsupported("build_item_definition_evaluator of %r" % (d,))
+            yield st, En("Result", z3.IntVal(0), {"Ok": (comp_evs[d.e[1]],)})
+
+        def m_build_av(ex, st, callee, args, dest_ty):
+            yield st, En("Result", z3.IntVal(0), {"Ok": (av,)})
+        extra = [(re.compile(r"^(dmntk_model::model::)?ItemDefinition::item_components$"), m_components),
+                 (re.compile(r"^<(dmntk_model::model::)?ItemDefinition as (dmntk_model::model::)?NamedElement>::feel_name$|^(dmntk_model::model::)?ItemDefinition::feel_name$"), m_feel_name),
+                 (re.compile(r"^build_item_definition_evaluator$"), m_build_item),
+                 (re.compile(r"^build_allowed_values_evaluator$"), m_build_av)]
+
+        def runner(ex, st):
+            for m_ in reversed(extra):
+                ex.models.insert(0, m_)
+            for o in run_builder(ex, st, builder, [idef], x):
+                if o.kind == "return":
+                    tag, res = o.value
+                    if tag != "ok":
+                        raise MirUnsupported("%s did not build an evaluator" % builder)
+                    o = Outcome("return", o.st, value=res)
+                yield o
+        return runner
+
     def setup_component(ex, st):
         ncomp, comps = components(ex, st)
         has_av, av = av_option(ex, st)
         x = U.fresh(ex, st, 1, "x", list_len=1, ctx_len=3)
-        env = closure_env(ex, st, "build_component_type_evaluator", {"component_evaluators": comps, "av_evaluator": av})
         inputs = dict(components=ncomp, has_allowed_values=has_av, _x=x)
-        return "build_component_type_evaluator::{closure#0}", [env, Ref(ex.new_cell(st, x, "input")), ide_ref(ex, st)], inputs
+        return via_builder(ex, st, "build_component_type_evaluator", ncomp, av, x), None, inputs
 
     def post_component(ex, o, v):
         res, x = o.value, v["_x"]
@@ -271,9 +312,8 @@ def jobs_for(check, mirror, rb, crate, U, jobs, tier, KNOWN_PRED):
             ex.assume(st, x.disc != U.idx("List"))
         else:
             ex.assume(st, z3.And(x.disc == U.idx("List"), x.alts["List"][0].fields[0].len == fixed_len))
-        env = closure_env(ex, st, "build_collection_of_component_type_evaluator", {"component_evaluators": comps, "av_evaluator": av})
         inputs = dict(components=ncomp, has_allowed_values=has_av, _x=x)
-        return "build_collection_of_component_type_evaluator::{closure#0}", [env, Ref(ex.new_cell(st, x, "input")), ide_ref(ex, st)], inputs
+        return via_builder(ex, st, "build_collection_of_component_type_evaluator", ncomp, av, x), None, inputs
 
     def checked_list_of_ctx(ex, st, res, vec, ncomp, calls):
         if not (isinstance(res, En) and res.ty == "Value" and ex.concrete(res.disc) == U.idx("List")):
@@ -311,7 +351,7 @@ def jobs_for(check, mirror, rb, crate, U, jobs, tier, KNOWN_PRED):
                 c, crate, "item_definition/collection_of_component/%dcomp_%s" % (fn, "nonlist" if fl is None else "len%d" % fl),
                 lambda ex, st: setup_coll_component(ex, st, fn, fl), post_coll_component,
                 lambda i, rb: replay_itemdef("collection_of_component", i, rb), rb, models=MODELS, unwind=24, describe=common_desc, budget_s=1200,
-                min_paths=1, timeout_ms=20000, known_predicates=KNOWN_PRED, prefer=lambda inp: U.replayable_pref(inp["_x"])))
+                min_paths=1, timeout_ms=20000, known_predicates=KNOWN_PRED, prefer=lambda inp: U.replayable_pref(inp["_x"]), max_cex=8, max_per_label=2))
 
     # ------------------------------------------------------------------------------------------------------------ referenced types
     def registry_models(ex, st):
